@@ -289,7 +289,7 @@ class StmtMixin:
             else:
                 rng = self.tmp('range'); e = self.expr(rinit); self.flush(out, i2)
                 out.append(i2 + '%s %s = %s;' % (rt.c, rng, e))
-            ix = self.tmp('i'); nn = self.tmp('n'); name = self.local_name(lv)
+            ix = 'i_L%d_' % (self.loopn + 1); nn = 'n_L%d_' % (self.loopn + 1); name = self.local_name(lv)   # named by loop ordinal: stable under edits elsewhere
             for fn, proto in (('%s_iter_size' % rt.c, 'size_t %s_iter_size(const %s* this_);' % (rt.c, rt.c)),
                               ('%s_iter_get' % rt.c, '%s %s_iter_get(const %s* this_, size_t index);' % (lt.c, rt.c, rt.c))):
                 self.autostubs.setdefault(fn, proto); self.fninfo.setdefault(fn, {'qname': fn, 'stub': True})
@@ -309,7 +309,7 @@ class StmtMixin:
             out.append(ind + '{'); i2 = ind + '  '
             if not self.is_lv(core): raise Unsupported('range-for over a temporary map')
             rng = self.expr(core); self.flush(out, i2)
-            ix = self.tmp('i')
+            ix = 'i_L%d_' % (self.loopn + 1)
             ghost_iter = not rt.const and not (self.cur_this_const and ('this_' in rng))
             out.append(i2 + 'size_t %s;' % ix)
             if ghost_iter: out.append(i2 + '%s.iter = %s.iter + 1;' % (rng, rng))
@@ -340,7 +340,7 @@ class StmtMixin:
         else:
             rng = self.tmp('range'); e = self.expr(rinit); self.flush(out, i2)
             out.append(i2 + '%s %s = %s;' % (rt.c, rng, e))
-        ix = self.tmp('i')
+        ix = 'i_L%d_' % (self.loopn + 1)
         name = self.local_name(lv)
         if rt.kind == 'sv':
             out.append(i2 + 'size_t %s;' % ix)
